@@ -256,7 +256,8 @@ fn main() {
                 if item.get("world").and_then(|x| x.as_bool()).unwrap_or(false) {
                     sig.inputs.push(parse_quote! { Tracked(w): Tracked<&mut World> });
                 }
-                rules::mark(&mut block, &marker_name);
+                let unit_ret = matches!(sig.output, ReturnType::Default);
+                rules::mark_ret(&mut block, &marker_name, unit_ret);
                 let ret = rules::ret_marker(&mut sig);
                 let f = quote! { #sig #block };
                 let text = match shell {
